@@ -72,7 +72,7 @@ def uniformity_guards(repo, col, fi, ex, R):
         if not tabular:
             continue
         n_u += 1
-        stat = T.find(t, lambda x: x.op == "mcall" and x.name in ("var", "std", "mean", "sum", "ptp") and
+        stat = T.find(t, lambda x: x.op == "mcall" and x.name in ("var", "std", "mean", "sum") and
                       T.find(x, lambda y: y.op == "mcall" and y.name in ("nunique", "unique", "duplicated")) is None and
                       T.find(x, lambda y: y.op == "cmp" and y.name in ("==", "!=")) is None)
         exact = T.find(t, lambda x: (x.op == "cmp" and x.name in ("==", "!=", "<=", ">") and stat is None) or
